@@ -77,7 +77,8 @@ def register(reg, ctx):
         raises_any=["ValueError"],
         ensures=[("registers_geometry_callback", lambda P: [("registers_geometry_callback", z3.BoolVal(bool(
             P.calls('notifier.add') and isinstance(P.calls('notifier.add')[-1].args[0], BoundMethod)
-            and P.calls('notifier.add')[-1].args[0].name == '_attenuator_changed')))])])
+            and P.calls('notifier.add')[-1].args[0].name == '_attenuator_changed')))]),
+                 ("keeps_foreign_registrations", foreign_removals)])
     # ------------------------------------------------------------------ attenuator
     at = dict(ext, **{'SingleRayAttenuator._change': logged_self('_change')})
     setter_contracts(reg, PROP, tree, SR, 'SingleRayAttenuator', None, label='notify', recv="self.notifier",
@@ -108,12 +109,39 @@ GUARDS = [
 ]
 
 
+def foreign_removals(P):
+    """A setter may take ANOTHER object's callback off a notifier only if that object no longer uses the notifier's owner as its provider
+    afterwards (otherwise the other object silently stops receiving change notifications)."""
+    out = []
+    me = P.value("self")
+    for n, ev in enumerate(P.calls('notifier.remove')):
+        cb = ev.args[0] if ev.args else None
+        if not (isinstance(cb, BoundMethod) and isinstance(cb.obj, Obj)):
+            out.append(("registration.remove#%d.callback_known" % n, z3.BoolVal(False)))
+            continue
+        own = cb.obj.ref.eq(me.ref)
+        if own:
+            continue
+        still = []
+        for prov in ('_beam', '_plasma'):
+            try:
+                cur = P.eng.read_attr(P.st, cb.obj, prov, 'ref')
+            except Exception:
+                continue
+            holder = P.eng.read_attr(P.st, cur, 'notifier', 'ref') if isinstance(cur, Obj) else None
+            if holder is not None:
+                still.append(z3.And(cur.ref != P.value("None") if False else z3.BoolVal(True), holder.ref == ev.recv.ref))
+        out.append(("registration.remove#%d.foreign_callback_owner_detached" % n, z3.Not(z3.Or(*still)) if still else z3.BoolVal(False)))
+    return out or [("registration.no_foreign_removal", z3.BoolVal(True))]
+
+
 def registration_post(prov):
     def post(P):
         adds = P.calls('notifier.add')
         out = []
         if not adds:
-            return [("registration.add", z3.BoolVal(False))]
+            # no registration on this path: fine iff the provider is the one already held (registered by the call that stored it)
+            return [("registration.add", as_bool(P.eng.identical(P.value("self._%s" % prov), P.value("old(self._%s)" % prov))))]
         ev = adds[-1]
         cb = ev.args[0] if ev.args else None
         okcb = isinstance(cb, BoundMethod) and cb.name == '_change' and isinstance(cb.obj, Obj)
@@ -177,7 +205,31 @@ def _visibility(ctx, eng):
     return out
 
 
-GENERATORS = [_guards, _visibility]
+def _removals(ctx, eng):
+    """Every notifier.remove(<callback>) call site takes off a callback of the calling object itself (self.<method>).  Taking off another
+    object's callback is only accepted inside Beam.attenuator.setter, where the engine contract decides it semantically."""
+    tree = ctx['tree']
+    out = []
+    for file in (PN, PM, BN, BM, SR, LN):
+        mod = tree.module(file)
+        for c in mod.body:
+            if not isinstance(c, ast.ClassDef):
+                continue
+            for fn in ast.walk(c):
+                if not isinstance(fn, ast.FunctionDef):
+                    continue
+                k = 0
+                for n in ast.walk(fn):
+                    if isinstance(n, ast.Call) and isinstance(n.func, ast.Attribute) and n.func.attr == 'remove' and 'notifier' in ast.unparse(n.func.value):
+                        own = bool(n.args) and isinstance(n.args[0], ast.Attribute) and isinstance(n.args[0].value, ast.Name) and n.args[0].value.id == 'self'
+                        covered = (c.name == 'Beam' and fn.name == 'attenuator')
+                        out.append(structural('registration/%s.%s.remove#%d.own-callback' % (c.name, fn.name, k), PROP, own or covered,
+                                              '%s in %s.%s' % (ast.unparse(n), c.name, fn.name)))
+                        k += 1
+    return out
+
+
+GENERATORS = [_guards, _visibility, _removals]
 
 
 def native_replay(ctx, o):
@@ -208,6 +260,27 @@ print(json.dumps({"density_after_move": d1, "density_fresh_beam": d2, "equal": a
         return {'confirmed': bool(out) and (out.get('equal') is False or bool(out.get('step_setter_error'))), 'observed': out,
                 'input': 'beam moved from x=0.3 to x=1.8 after density(); then attenuator.step = 0.005',
                 'expected': 'density equals that of a beam built at the final position; step setter accepted'}
+    if '[registration]' in name or 'registration/' in name or ('BeamAttenuator' in name and '_change' in name):
+        # history: attenuator A, swap to B, swap back to A, observe, then change beam settings - compared with a beam built from scratch
+        code = scene + '''
+A = beam.attenuator
+B = SingleRayAttenuator(clamp_to_zero=False)
+d = [beam.density(0, 0, 3.0)]
+beam.attenuator = B; d.append(beam.density(0, 0, 3.0))
+beam.attenuator = A; d.append(beam.density(0, 0, 3.0))
+beam.power = 3e6; beam.energy = 80000
+got = beam.density(0, 0, 3.0)
+b2 = Beam(parent=world, transform=translate(0.6, 0, -2))
+b2.plasma = plasma; b2.atomic_data = Data(); b2.energy = 80000; b2.power = 3e6; b2.element = elements.deuterium
+b2.sigma = 0.05; b2.divergence_x = 0.5; b2.divergence_y = 0.5; b2.length = 5.0
+b2.attenuator = SingleRayAttenuator(clamp_to_zero=False)
+want = b2.density(0, 0, 3.0)
+print(json.dumps({"density_after_history": got, "density_fresh_beam": want, "equal": abs(got - want) <= 1e-9 * abs(want)}))
+'''
+        out = run_native(ctx, code)
+        return {'confirmed': bool(out) and out.get('equal') is False, 'observed': out,
+                'input': 'beam.attenuator = B; beam.attenuator = A (the first attenuator again); density(); beam.power = 3e6; beam.energy = 8e4; density()',
+                'expected': 'density equals that of a beam built from scratch with power 3e6, energy 8e4'}
     m = None
     for prop, stmt in (('length', 'beam.length = 3.0'), ('sigma', 'beam.sigma = 0.1'), ('divergence_x', 'beam.divergence_x = 0.0; beam.divergence_y = 0.0'),
                        ('divergence_y', 'beam.divergence_y = 0.0; beam.divergence_x = 0.0'), ('clamp_sigma', 'beam.attenuator.clamp_sigma = 8.0'),
